@@ -34,6 +34,9 @@ fn field_alphabet(tier: Tier) -> Vec<Field> {
                 v.push(Field::BadStr(vec![0xFF]));
                 v.push(Field::BadStr(vec![b'a', 0xC3]));
                 v.push(Field::BadStr(vec![0xE2, 0x82, b'a']));
+                // a NUL in front of the first invalid byte: the field as a whole is still not UTF-8
+                v.push(Field::BadStr(vec![b'o', b'k', 0, 0xFF, 0xFE]));
+                v.push(Field::BadStr(vec![0, 0x80]));
             }
             RefKind::Raw => {
                 for r in [vec![], vec![0u8], vec![1, 2, 3], vec![0xFF, 0xC3]] {
